@@ -64,8 +64,13 @@ func vsGenC30(r *sim.Rand, tier string) *sim.Case {
 	straggler := r.Intn(3) == 0
 	if straggler {
 		per = 3 + r.Intn(4)
-		c.Cfg["pct_depth"] = r.Pick64(1, 2, 2, 3)
-		c.Cfg["pause_odds"] = r.Pick64(2, 4)
+		// one long preemption of connection 0: right after its transaction got its
+		// snapshot (hold_site 1), or at its n-th scheduling point whatever it is (2)
+		c.Cfg["hold_site"] = r.Pick64(1, 1, 2)
+		c.Cfg["hold_nth"] = 1
+		if c.Cfg["hold_site"] == 2 {
+			c.Cfg["hold_nth"] = int64(1 + r.Intn(60))
+		}
 	}
 	stragglerDone := false
 	for i := 0; i < conns*per; i++ {
@@ -370,11 +375,16 @@ func vsExecC30(t *testing.T, c *sim.Case) *sim.Result {
 				x.sched.PauseOdds = odds
 				x.sched.PauseBudget = int(c.CfgInt("pause_budget", 0))
 				x.sched.PauseAt = map[string]bool{}
-				for _, site := range []string{"wm.begin.published", "wm.add.window", "wm.add.added", "orc.committs.issued", "orc.committs.begun",
-					"orc.readts.loaded", "orc.readts.clamped", "orc.readts.waited", "txn.commit.written", "orc.donecommit",
+				for _, site := range []string{"wm.begin.published", "wm.add.added", "orc.readts.waited", "txn.commit.written", "orc.donecommit",
 					"be.IncrBy.pre", "be.Set.pre", "be.Get.post", "lock.pre"} {
 					x.sched.PauseAt[site] = true
 				}
+			}
+		}
+		if hs := c.CfgInt("hold_site", 0); hs > 0 {
+			x.sched.HoldTask, x.sched.HoldNth, x.sched.HoldFirst = "conn0", int(c.CfgInt("hold_nth", 1)), true
+			if hs == 1 {
+				x.sched.HoldSite = "orc.readts.waited"
 			}
 		}
 		x.installHooks()
